@@ -1654,7 +1654,16 @@ impl<'a, Outputter: HCValueOutputter> HCPrinter<'a, Outputter> {
                 if let Some(ref op) = op {
                     let op_is_prefix = op.is_prefix() && op.is_left();
 
+                    // a prefix operator further up that was the last item printed
+                    // borders the bracket as well: "+(-)^a" would be read as the
+                    // compound +(-) to the left of ^.
+                    let borders_prefix_op = printer
+                        .parent_of_first_op
+                        .map(|(_, last_item_idx)| printer.last_item_idx == last_item_idx)
+                        .unwrap_or(false);
+
                     if op_is_prefix
+                        || borders_prefix_op
                         || printer
                             .outputter
                             .ends_with(&format!(" {}", op.as_atom().as_str()))
